@@ -178,7 +178,7 @@ def gen_spell(tier, rng):
         out.append({"dets": dets, "e": e, "s": spell(e, rng, paren, blank)})
 
     kmax = 3 if tier == "quick" else 4
-    reps = 3 if tier == "quick" else 6
+    reps = 3 if tier == "quick" else 4
     for k in range(1, kmax + 1):
         for sh in shapes_cached(k):
             for paren in ["min", "full", "redundant"]:
@@ -189,9 +189,9 @@ def gen_spell(tier, rng):
         for sh in rng.sample(shapes_cached(4), 500):
             add(sh)
     else:
-        for sh in rng.sample(shapes_cached(5) if False else [random_shape(rng, 5) for _ in range(4000)], 4000):
-            add(sh)
-    for _ in range(300 if tier == "quick" else 5000):
+        for _ in range(3000):
+            add(random_shape(rng, 5))
+    for _ in range(300 if tier == "quick" else 4000):
         add(random_shape(rng, rng.randint(5, 12)))
     # every hostile name alone, negated, and next to every operator
     for n in REFERABLE:
@@ -215,7 +215,7 @@ def gen_spell(tier, rng):
 # ----------------------------------------------------------------------------- raw text
 CHARS = ["a", "n", "o", "t", "d", "r", "1", "f", "*", "_", "-", "(", ")", " "]
 WORDS = ["a", "b", "not", "and", "or", "1", "of", "them", "all", "any", "a*", "notepad", "a-b", "of*", "(", ")",
-         "android", "*", "_x", "x|y", "a$", "é", "AND", "1of", "of*a", "not(", ")or", "\x0b"]
+         "android", "*", "_x", "x|y", "a$", "é", "AND", "1of", "of*a", "not(", ")or", "\x0b", "-a", "-", "and-", "ofa"]
 RAW_DETS = ["a", "b", "notepad", "android", "_x", "a-b", "not", "1", "of"]
 
 
@@ -228,22 +228,22 @@ def gen_raw(tier, rng):
     if tier != "quick":
         sub = ["a", "n", "o", "t", "1", "f", "*", "(", ")", " "]
         for t in itertools.product(sub, repeat=5):
-            if rng.random() < 0.3:
+            if rng.random() < 0.08:
                 out.append({"dets": ["a", "not", "_d", "1", "of"], "s": "".join(t)})
     kw = 3 if tier == "quick" else 4
     words = WORDS[:16]
     for k in range(1, kw + 1):
         for t in itertools.product(words, repeat=k):
-            if k == 4 and rng.random() < 0.75:
+            if k == 4 and rng.random() < 0.9:
                 continue
             out.append({"dets": RAW_DETS, "s": " ".join(t)})
-    for _ in range(1500 if tier == "quick" else 30000):
+    for _ in range(1500 if tier == "quick" else 10000):
         n = rng.randint(1, 9)
         ts = [rng.choice(WORDS) for _ in range(n)]
         s = "".join(t + rng.choice(["", " ", " ", "  ", "\t"]) for t in ts)
         out.append({"dets": RAW_DETS, "s": s})
     # valid spellings damaged by one edit
-    for _ in range(600 if tier == "quick" else 10000):
+    for _ in range(600 if tier == "quick" else 4000):
         dets = pick_dets(rng)
         e = fill(random_shape(rng, rng.randint(1, 5)), dets, rng, patterns_for(dets, rng))
         s = spell(e, rng)
